@@ -172,6 +172,12 @@ def scenarios():
             if cfg["cc"] and not cfg["has_rt"] and "rot" in oc:
                 continue
             out.append((cfg, oc))
+    # expiry close to now: just expired, expired by exactly the leeway, about to expire within the leeway (all count as expired),
+    # and valid for a little more than the leeway (does not)
+    for by in (5, 60, -30, -59):
+        for oc in (["ok"], ["err"], ["5xx", "ok"]):
+            out.append((mkcfg(expired_by=by), oc))
+    out.append((mkcfg(init_expired=False, valid_for=62), []))
     out.append((mkcfg(init_expired=False), []))
     out.append((mkcfg(has_token=False), []))
     out.append((mkcfg(has_rt=False), []))            # expired, nothing to refresh with: InvalidTokenError
